@@ -177,7 +177,7 @@ def cases(c):
                             'kind': gen.pick(rng, KINDS), 'norm': gen.pick(rng, NORMS),
                             'maxlags': gen.pick(rng, [None, 0, NN - 1, int(rng.integers(0, NN))]),
                             'list': bool(rng.integers(0, 2))})
-    nrand = 2500 if c.tier == 'quick' else 72000
+    nrand = 2500 if c.tier == 'quick' else 288000
     for i in range(nrand):
         N = int(rng.integers(2, 200 if i % 4 == 0 else 48))
         M = gen.pick(rng, [None, None, N, int(rng.integers(1, 200 if i % 4 == 0 else 48))])
@@ -196,7 +196,7 @@ def cases(c):
                 out.append({'fn': 'corrmtx', 'N': N, 'm': m, 'method': method,
                             'cx': int(rng.integers(0, 2)), 'kind': gen.pick(rng, KINDS),
                             'list': bool(rng.integers(0, 4) == 0)})
-    for i in range(600 if c.tier == 'quick' else 18000):
+    for i in range(600 if c.tier == 'quick' else 72000):
         N = int(rng.integers(3, 128))
         out.append({'fn': 'corrmtx', 'N': N, 'm': int(rng.integers(1, N)),
                     'method': gen.pick(rng, METHODS), 'cx': int(rng.integers(0, 2)),
